@@ -28,6 +28,11 @@ def parse_doc(doc: Any):
         return DznJsonAst(text).process()
 
 
+def ids_of(dotted: str) -> list:
+    """Identifier list of a dotted name; the empty name is the empty list."""
+    return dotted.split('.') if dotted else []
+
+
 def make_select(sel, order_seed: Optional[int] = None, pool: Optional[dict] = None):
     """A PortSelect for the encoded selection.  With `pool`, equal selections share one object
     across configurations - the way a user builds several configurations from the same pieces."""
@@ -75,7 +80,7 @@ def make_configuration(enc: dict, fc, order_seed: Optional[int] = None,
     return Configuration(
         dezyne_filename=enc.get('filename', 'Model.dzn'), ast_fc=fc,
         output_basename_suffix=enc.get('suffix', 'Shell'),
-        fqn_encapsulee_name=NamespaceIds(enc['encapsulee'].split('.')),
+        fqn_encapsulee_name=NamespaceIds(ids_of(enc['encapsulee'])),
         ports_cfg=make_ports_cfg(enc, order_seed, pool),
         facilities_origin=FacilitiesOrigin.CREATE if enc.get('origin', 'create') == 'create'
         else FacilitiesOrigin.IMPORT,
@@ -107,6 +112,21 @@ def equivalent_spellings(enc: dict, provides: List[str], requires: List[str]) ->
                 if rest and not (side == 'provides'):
                     out.append(dict(enc, **{side: {mine: rest, other: list(sel[other])}}))
     return out
+
+
+def contrasting_configs(enc: dict) -> List[dict]:
+    """Other configurations for the same encapsulee with a different STS/MTS assignment, the
+    other facilities origin and another suffix - what a user generates next to this shell from
+    the same Builder.  Some may be invalid for the model at hand; they are simply refused."""
+    swap = {side: {'sts': enc[side]['mts'], 'mts': enc[side]['sts']}
+            for side in ('provides', 'requires')}
+    other_origin = 'import' if enc.get('origin', 'create') == 'create' else 'create'
+    plain = dict(enc, multiclient=None, suffix=enc.get('suffix', 'Shell') + 'Other')
+    return [dict(plain, **swap),
+            dict(plain, provides={'sts': 'NONE', 'mts': 'ALL'}, requires={'sts': 'ALL', 'mts': 'NONE'},
+                 origin=other_origin),
+            dict(plain, provides={'sts': 'ALL', 'mts': 'NONE'}, requires={'sts': 'NONE', 'mts': 'ALL'}),
+            dict(enc, **swap)]
 
 
 def outcome(enc: dict, doc: Any, fc=None, warmups: Optional[List[dict]] = None) -> Dict[str, Any]:
